@@ -46,22 +46,22 @@ type Violation struct {
 
 // Result is what a driver (or one shard of it) reports.
 type Result struct {
-	Property     string            `json:"property"`
-	States       map[string]int    `json:"states"` // digest -> min depth (merged across shards)
-	Transitions  int64             `json:"transitions"`
-	Evaluations  int64             `json:"evaluations"`
-	Nontrivial   map[string]bool   `json:"nontrivial"` // distinct non-trivial case ids
-	Outcomes     map[string]int64  `json:"outcomes"`
-	Violations   []Violation       `json:"violations"`
-	Samples      []any             `json:"samples"`
-	TracesImpl   int64             `json:"traces_impl"`
-	MaxDepth     int               `json:"max_depth"`
-	CapHit       bool              `json:"cap_hit"`
-	Observations []string          `json:"observations"`
-	Extra        map[string]any    `json:"extra"`
-	Counters     map[string]int64  `json:"counters"`
-	HarnessErr   string            `json:"harness_err,omitempty"`
-	ViolCount    int64             `json:"viol_count"`
+	Property     string           `json:"property"`
+	States       map[string]int   `json:"states"` // digest -> min depth (merged across shards)
+	Transitions  int64            `json:"transitions"`
+	Evaluations  int64            `json:"evaluations"`
+	Nontrivial   map[string]bool  `json:"nontrivial"` // distinct non-trivial case ids
+	Outcomes     map[string]int64 `json:"outcomes"`
+	Violations   []Violation      `json:"violations"`
+	Samples      []any            `json:"samples"`
+	TracesImpl   int64            `json:"traces_impl"`
+	MaxDepth     int              `json:"max_depth"`
+	CapHit       bool             `json:"cap_hit"`
+	Observations []string         `json:"observations"`
+	Extra        map[string]any   `json:"extra"`
+	Counters     map[string]int64 `json:"counters"`
+	HarnessErr   string           `json:"harness_err,omitempty"`
+	ViolCount    int64            `json:"viol_count"`
 	sigSeen      map[string]bool
 }
 
@@ -242,7 +242,7 @@ type Op struct {
 type Explorer struct {
 	W         *world.World
 	Res       *Result
-	Stores    []string                   // stores hashed into the digest
+	Stores    []string                    // stores hashed into the digest
 	Extra     func(w *world.World) string // additional digest input (block time, model state)
 	Ops       func(w *world.World, depth int, path []string) []Op
 	Invariant func(w *world.World, path []string, res *Result) // evaluated in every visited state
@@ -279,6 +279,14 @@ func (e *Explorer) Run() {
 		e.Invariant(e.W, nil, e.Res)
 		e.Res.Evaluations++
 	}
+	if Replaying() {
+		e.ExpandFailed, e.ExpandViolating, e.NoDedup = true, true, true
+		if len(ReplayPath) < e.MaxDepth {
+			e.MaxDepth = len(ReplayPath)
+		}
+		e.visit(0, nil, root)
+		return
+	}
 	// iterative deepening: the first witness recorded for a signature is a shortest one
 	for dmax := 1; dmax < e.MaxDepth; dmax++ {
 		scratch := NewResult(e.Res.Property)
@@ -308,7 +316,11 @@ func (e *Explorer) visit(depth int, path []string, cur string) {
 	}
 	ops := e.Ops(e.W, depth, path)
 	for i, op := range ops {
-		if depth == 0 && i%e.NShards != e.Shard {
+		if Replaying() {
+			if op.Name != ReplayPath[depth] {
+				continue
+			}
+		} else if depth == 0 && i%e.NShards != e.Shard {
 			continue
 		}
 		if !e.Deadline.IsZero() && time.Now().After(e.Deadline) {
